@@ -1,1067 +1,4 @@
-// C11 — WebSocket: messages arrive once, intact and in order, in both roles, against the library itself and
-// against an independent RFC 6455 framer; the accept key is the RFC's; hostile frame streams (cut at any
-// offset) can close the connection but never cause a memory error or a negative length.
-#include "scen/common.h"
-#include "scen/ref/sha1_b64.h"
-#include "sim/net.h"
-#include <algorithm>
-#include <asl/WebSocket.h>
-#include <asl/HttpServer.h>
-#include <asl/Socket.h>
-#include <asl/String.h>
-
-using namespace scn;
-
-namespace {
-
-const int PORT = 18011;
-
-std::string msgOf(uint64_t seed, size_t len, bool text)
-{
-	std::string s(len, '\0');
-	uint64_t x = seed * 0x9e3779b97f4a7c15ULL + 99;
-	for (size_t i = 0; i < len; i++)
-	{
-		x = x * 6364136223846793005ULL + 1442695040888963407ULL;
-		unsigned char c = (unsigned char)(x >> 56);
-		s[i] = text ? (char)(0x20 + c % 95) : (char)c;
-	}
-	return s;
-}
-
-int64_t wsLen(Prng& r, int tier)
-{
-	int64_t hi = 3000;
-	if (r.below(4) == 0)
-		hi = 70000;
-	if (r.below(tier ? 40 : 400) == 0)
-		hi = 4 * 1024 * 1024; // beyond 1 MiB even in the quick tier, rarely (block-wise senders change behaviour there)
-	return biased(r, 1, hi, {1, 125, 126, 127, 65535, 65536, 65537});
-}
-
-struct M
-{
-	int dir, text;
-	std::string data;
-};
-
-std::vector<M> messagesOf(const Plan& p, size_t maxN)
-{
-	std::vector<M> v;
-	for (auto& o : p.ops)
-		if (o.k == "msg" && v.size() < maxN)
-		{
-			M m;
-			m.dir = (int)(std::abs(o.arg(0)) & 1);
-			m.text = (int)(std::abs(o.arg(1)) & 1);
-			size_t len = (size_t)std::max<int64_t>(1, std::min<int64_t>(5000000, o.arg(2)));
-			m.data = msgOf((uint64_t)o.arg(3), len, m.text != 0);
-			v.push_back(m);
-		}
-	return v;
-}
-
-void applyNetKnobs(Prng& r, Plan& p)
-{
-	if (r.below(2))
-		p.p["knob.net.frag"] = 10 + r.below(90);
-	if (r.below(3) == 0)
-		p.p["knob.net.short"] = 10 + r.below(80);
-	if (r.below(3) == 0)
-		p.p["knob.net.lat_us"] = 1 + r.below(50000);
-	if (r.below(5) == 0)
-		p.p["knob.net.sndbuf"] = 256 << r.below(8);
-}
-
-// ================================================================ asl <-> asl
-struct EchoSrv : public asl::WebSocketServer
-{
-	std::vector<M>* msgs = nullptr;
-	std::vector<std::string> got;
-	volatile int served = 0, done = 0;
-	volatile bool sawEnd = false;
-	void serve(asl::WebSocket& ws)
-	{
-		__sync_fetch_and_add(&served, 1);
-		bool end = false;
-		while (!end)
-		{
-			if (!ws.wait(30))
-				break;
-			if (ws.closed())
-				break;
-			asl::WebSocketMsg m = ws.receive();
-			if (m.length() < 0)
-				sim::fail("negative_length", "server_receive", "receive() returned a message of negative length");
-			if (m.length() == 0)
-				continue;
-			std::string s((const char*)((asl::ByteArray)m).data(), (size_t)m.length());
-			if (s == "\x01" "END")
-				end = true;
-			else
-				got.push_back(s);
-		}
-		if (end)
-			sawEnd = true; // (sticky: with a reused client object a second, message-less session is served by another handler)
-		if (end)
-		{
-			for (auto& m : *msgs)
-				if (m.dir == 1)
-				{
-					if (m.text)
-						ws.send(asl::String(m.data.c_str()));
-					else
-						ws.send(asl::ByteArray((const asl::byte*)m.data.data(), (int)m.data.size()));
-				}
-			ws.send(asl::String("\x01" "END"));
-			// wait until the client closes, so that nothing is lost to an early close
-			for (int i = 0; i < 100 && !ws.closed(); i++)
-				ws.wait(1);
-		}
-		__sync_fetch_and_add(&done, 1);
-	}
-};
-
-void genAsl(Prng& r, Plan& p, int tier)
-{
-	int n = 1 + (int)r.below(8);
-	for (int i = 0; i < n; i++)
-		p.ops.push_back(op("msg", {(int64_t)r.below(2), (int64_t)r.below(2), wsLen(r, tier), (int64_t)(r.next() >> 20)}));
-	applyNetKnobs(r, p);
-	p.p["abrupt"] = r.below(5) == 0; // the client closes right behind its last message instead of waiting for the server's
-	p.p["linked"] = r.below(4) == 0; // served through an HttpServer on the same port (HttpServer::link)
-	p.p["reuse"] = r.below(4) == 0;  // the client object is on its second session
-}
-
-void compareSeq(const char* dirName, const std::vector<M>& msgs, int dir, const std::vector<std::string>& got)
-{
-	std::vector<const M*> want;
-	for (auto& m : msgs)
-		if (m.dir == dir)
-			want.push_back(&m);
-	size_t n = std::min(want.size(), got.size());
-	for (size_t i = 0; i < n; i++)
-		if (got[i] != want[i]->data)
-		{
-			size_t d = 0;
-			while (d < got[i].size() && d < want[i]->data.size() && got[i][d] == want[i]->data[d])
-				d++;
-			bool isLater = false;
-			for (size_t j = i + 1; j < want.size(); j++)
-				if (want[j]->data == got[i])
-					isLater = true;
-			sim::fail("message_mismatch", isLater ? (std::string(dirName) + ";order").c_str() : (std::string(dirName) + ";content").c_str(),
-			          "%s: message %zu of %zu bytes (%s) received as %zu bytes, first difference at offset %zu", dirName, i, want[i]->data.size(), want[i]->text ? "text" : "binary", got[i].size(), d);
-			return;
-		}
-	if (got.size() < want.size())
-		sim::fail("message_mismatch", (std::string(dirName) + ";lost").c_str(), "%s: %zu messages sent, %zu received (message %zu of %zu bytes never arrived)", dirName, want.size(), got.size(), got.size(),
-		          want[got.size()]->data.size());
-	else if (got.size() > want.size())
-		sim::fail("message_mismatch", (std::string(dirName) + ";extra").c_str(), "%s: %zu messages sent, %zu received (duplicate or split message)", dirName, want.size(), got.size());
-}
-
-void runAsl(const Plan& p)
-{
-	std::vector<M> msgs = messagesOf(p, 16);
-	EchoSrv* srv = new EchoSrv;
-	srv->msgs = &msgs;
-	// the WebSocket server either listens itself or is linked to an HttpServer that owns the port and hands upgrade requests over
-	asl::HttpServer* http = p.get("linked") ? new asl::HttpServer : nullptr;
-	if (http)
-		http->link(*srv);
-	if (!(http ? http->bind(PORT) : srv->bind(PORT)))
-	{
-		sim::fail("harness", "bind_failed", "bind failed");
-		delete http;
-		delete srv;
-		return;
-	}
-	if (http)
-		http->start(true);
-	else
-		srv->start(true);
-	std::vector<std::string> clientGot;
-	bool connected = false, sawEnd = false;
-	const bool abrupt = p.get("abrupt") != 0;
-	const bool reuse = p.get("reuse") != 0;
-	{
-		asl::WebSocket ws;
-		if (reuse)
-		{
-			// the same WebSocket object has already been through one session (connect, close) before the one that is judged
-			ws.connect("ws://127.0.0.1/chat", PORT);
-			ws.close();
-		}
-		connected = ws.connect("ws://127.0.0.1/chat", PORT);
-		if (connected)
-		{
-			for (auto& m : msgs)
-				if (m.dir == 0)
-				{
-					if (m.text)
-						ws.send(asl::String(m.data.c_str()));
-					else
-						ws.send(asl::ByteArray((const asl::byte*)m.data.data(), (int)m.data.size()));
-				}
-			ws.send(asl::String("\x01" "END"));
-			for (; !abrupt;)
-			{
-				if (!ws.wait(60) || ws.closed())
-					break;
-				asl::WebSocketMsg m = ws.receive();
-				if (m.length() < 0)
-					sim::fail("negative_length", "client_receive", "receive() returned a message of negative length");
-				if (m.length() == 0)
-					continue;
-				std::string s((const char*)((asl::ByteArray)m).data(), (size_t)m.length());
-				if (s == "\x01" "END")
-				{
-					sawEnd = true;
-					break;
-				}
-				clientGot.push_back(s);
-			}
-			ws.close();
-		}
-	}
-	if (http)
-	{
-		http->stop(true);
-		delete http;
-	}
-	else
-		srv->stop(true);
-	std::vector<std::string> serverGot = srv->got;
-	int served = srv->served;
-	bool serverSawEnd = srv->sawEnd;
-	delete srv;
-	sim::sleepFor(3.0);
-	sim::NoSched ns;
-	if (!connected)
-	{
-		sim::fail("handshake", "asl_client_to_asl_server", "WebSocket::connect to the library's own server failed");
-		return;
-	}
-	if (served != 1 + (reuse ? 1 : 0))
-		sim::fail("handshake", "serve_count", "server serve(WebSocket&) ran %d times for %d connections", served, 1 + (reuse ? 1 : 0));
-	compareSeq(abrupt ? "client_to_server;close_behind_last_message" : "client_to_server", msgs, 0, serverGot);
-	if (abrupt)
-	{
-		// everything was sent before the close: TCP delivers it ahead of the end of stream
-		if (!serverSawEnd)
-			sim::fail("message_mismatch", "client_to_server;close_behind_last_message;lost_end", "the client closed right behind its last message; the server never received that message");
-		sim::setNontrivial();
-		return;
-	}
-	if (!sawEnd)
-		sim::fail("message_mismatch", "server_to_client;lost_end", "the client never received the end marker (connection ended early)");
-	compareSeq("server_to_client", msgs, 1, clientGot);
-	for (auto& m : msgs)
-	{
-		size_t n = m.data.size();
-		if ((n >= 124 && n <= 128) || (n >= 65534 && n <= 65538))
-			sim::setNontrivial();
-	}
-	if (sim::net::stats().fragReads > 0)
-		sim::setNontrivial();
-}
-
-// ================================================================ asl <-> independent framer
-// ops: msg(dir, text, len, seed)  frag(nframes, keyKind, pingWhere, masked)  attached to the preceding msg (framer side only)
-void genFramer(Prng& r, Plan& p, int tier)
-{
-	p.p["asl_role"] = r.below(2); // 0: asl is the server, 1: asl is the client
-	int n = 1 + (int)r.below(6);
-	for (int i = 0; i < n; i++)
-	{
-		p.ops.push_back(op("msg", {(int64_t)r.below(2), (int64_t)r.below(2), wsLen(r, tier), (int64_t)(r.next() >> 20)}));
-		// nframes 1..4, key kind, ping position (0 none, 1 before message, 2 between fragments), masked
-		p.ops.push_back(op("frag", {(int64_t)(1 + r.below(4)), (int64_t)r.below(6), (int64_t)r.below(3), (int64_t)(r.below(4) != 0), (int64_t)(r.next() >> 32)}));
-	}
-	applyNetKnobs(r, p);
-	p.p["abrupt"] = r.below(5) == 0; // the framer closes the connection right behind its last frame
-	p.p["conn_hdr"] = r.below(3);
-}
-
-uint32_t keyOf(int kind, uint64_t seed)
-{
-	switch (kind % 6)
-	{
-	case 0: return 0;
-	case 1: return 0x00ff00ff;
-	case 2: return 0xff000000;
-	case 3: return 0x000000ff;
-	case 4: return 0x12003400;
-	default: return (uint32_t)(seed * 2654435761u) | 0x01010101u;
-	}
-}
-
-struct FragSpec
-{
-	int nframes = 1, keyKind = 5, ping = 0, masked = 1;
-	uint64_t seed = 0;
-};
-
-std::string framesFor(const M& m, const FragSpec& fs, bool framerIsClient)
-{
-	std::string out;
-	Prng r(mix64(fs.seed, 17));
-	bool masked = framerIsClient ? (fs.masked != 0) : false; // a server never masks; a client "masked or not"
-	auto ping = [&](const char* tag) {
-		ref::Frame f;
-		f.opcode = 9;
-		f.payload = tag;
-		f.masked = masked;
-		f.key = keyOf(fs.keyKind + 1, fs.seed);
-		out += ref::encodeFrame(f);
-	};
-	if (fs.ping == 1)
-		ping("p-before");
-	int nf = std::max(1, std::min(4, fs.nframes));
-	// one frame of a fragmented message may be empty (RFC 6455 5.4 allows it; typical of streaming senders whose
-	// last write was a flush): first, middle or final
-	Prng r2(mix64(fs.seed, 99));
-	int emptyAt = nf >= 2 && r2.below(4) == 0 ? (int)r2.below((uint32_t)nf) : -1;
-	int nonEmpty = emptyAt >= 0 ? nf - 1 : nf;
-	if ((size_t)nonEmpty > m.data.size())
-	{
-		nf = (int)m.data.size();
-		emptyAt = -1;
-		nonEmpty = nf;
-	}
-	size_t pos = 0;
-	int left = nonEmpty; // non-empty frames still to be produced
-	for (int i = 0; i < nf; i++)
-	{
-		size_t remaining = m.data.size() - pos;
-		size_t n;
-		if (i == emptyAt)
-			n = 0;
-		else
-		{
-			left--;
-			n = left == 0 ? remaining : 1 + r.below((uint32_t)(remaining - (size_t)left));
-		}
-		ref::Frame f;
-		f.fin = i == nf - 1;
-		f.opcode = i == 0 ? (m.text ? 1 : 2) : 0;
-		f.payload = m.data.substr(pos, n);
-		f.masked = masked;
-		f.key = keyOf(fs.keyKind, fs.seed + (uint64_t)i);
-		out += ref::encodeFrame(f);
-		pos += n;
-		if (fs.ping == 2 && i + 1 < nf)
-			ping("p-between");
-	}
-	return out;
-}
-
-struct AslSide
-{
-	std::vector<std::string> got;
-	bool sawEnd = false;
-	int negative = 0;
-	void pump(asl::WebSocket& ws, double timeout)
-	{
-		for (;;)
-		{
-			if (!ws.wait(timeout) || ws.closed())
-				break;
-			asl::WebSocketMsg m = ws.receive();
-			if (m.length() < 0)
-				negative++;
-			if (m.length() <= 0)
-				continue;
-			std::string s((const char*)((asl::ByteArray)m).data(), (size_t)m.length());
-			if (s == "\x01" "END")
-			{
-				sawEnd = true;
-				break;
-			}
-			got.push_back(s);
-		}
-	}
-	void sendAll(asl::WebSocket& ws, const std::vector<M>& msgs, int dir)
-	{
-		for (auto& m : msgs)
-			if (m.dir == dir)
-			{
-				if (m.text)
-					ws.send(asl::String(m.data.c_str()));
-				else
-					ws.send(asl::ByteArray((const asl::byte*)m.data.data(), (int)m.data.size()));
-			}
-		ws.send(asl::String("\x01" "END"));
-	}
-};
-
-struct FramerSrv : public asl::WebSocketServer
-{
-	std::vector<M>* msgs = nullptr;
-	AslSide side;
-	volatile int served = 0;
-	void serve(asl::WebSocket& ws)
-	{
-		__sync_fetch_and_add(&served, 1);
-		side.pump(ws, 30);
-		if (side.sawEnd)
-		{
-			side.sendAll(ws, *msgs, 1);
-			for (int i = 0; i < 100 && !ws.closed(); i++)
-				ws.wait(1);
-		}
-	}
-};
-
-// reads frames the asl side emitted until the END marker; checks framing rules
-void deframe(int fd, bool fromClientRole, std::vector<std::string>& out, bool& sawEnd, std::string& problem)
-{
-	std::string buf, cur;
-	size_t pos = 0;
-	bool inMsg = false;
-	for (;;)
-	{
-		ref::Frame f;
-		int rc = ref::decodeFrame(buf, pos, f);
-		if (rc < 0)
-		{
-			problem = "frame with an absurd length";
-			return;
-		}
-		if (rc == 0)
-		{
-			char tmp[16384];
-			int k = sim::net::rawRecv(fd, tmp, sizeof tmp, 60.0);
-			if (k <= 0)
-			{
-				if (pos < buf.size())
-					problem = "connection ended inside a frame";
-				return;
-			}
-			buf.append(tmp, (size_t)k);
-			if (pos > (1u << 20))
-			{
-				buf.erase(0, pos);
-				pos = 0;
-			}
-			continue;
-		}
-		if (!f.minimalLen && problem.empty())
-			problem = "non-minimal payload length encoding";
-		if (f.rsv && problem.empty())
-			problem = "RSV bits set";
-		if (f.masked != fromClientRole && problem.empty())
-			problem = fromClientRole ? "client frame without mask" : "server frame with mask";
-		if (f.opcode >= 8)
-		{
-			if (f.opcode == 8)
-				return;
-			continue; // pong answers to our pings
-		}
-		if ((f.opcode == 0) != inMsg && problem.empty())
-			problem = "continuation/data opcode out of sequence";
-		cur += f.payload;
-		inMsg = !f.fin;
-		if (f.fin)
-		{
-			if (cur == "\x01" "END")
-			{
-				sawEnd = true;
-				return;
-			}
-			out.push_back(cur);
-			cur.clear();
-		}
-	}
-}
-
-bool readHttpHead(int fd, std::string& head)
-{
-	while (head.find("\r\n\r\n") == std::string::npos)
-	{
-		char tmp[2048];
-		int k = sim::net::rawRecv(fd, tmp, 1, 30.0); // byte-wise: must not swallow frames that follow the handshake
-		if (k <= 0 || head.size() > 8192)
-			return false;
-		head.append(tmp, (size_t)k);
-	}
-	return true;
-}
-
-std::string headerValue(const std::string& head, const char* name)
-{
-	size_t p = 0;
-	while ((p = head.find("\r\n", p)) != std::string::npos)
-	{
-		p += 2;
-		size_t e = head.find("\r\n", p);
-		std::string line = head.substr(p, e - p);
-		size_t c = line.find(':');
-		if (c != std::string::npos && strcasecmp(line.substr(0, c).c_str(), name) == 0)
-		{
-			std::string v = line.substr(c + 1);
-			while (!v.empty() && v[0] == ' ')
-				v.erase(0, 1);
-			return v;
-		}
-	}
-	return "";
-}
-
-void runFramer(const Plan& p)
-{
-	std::vector<M> msgs = messagesOf(p, 12);
-	std::vector<FragSpec> frags(msgs.size());
-	{
-		size_t i = 0;
-		bool seenMsg = false;
-		for (auto& o : p.ops)
-		{
-			if (o.k == "msg" && i < msgs.size())
-			{
-				if (seenMsg)
-					i++;
-				seenMsg = true;
-			}
-			else if (o.k == "frag" && seenMsg && i < msgs.size())
-			{
-				frags[i].nframes = (int)o.arg(0, 1);
-				frags[i].keyKind = (int)std::abs(o.arg(1));
-				frags[i].ping = (int)(std::abs(o.arg(2)) % 3);
-				frags[i].masked = (int)(o.arg(3) != 0);
-				frags[i].seed = (uint64_t)o.arg(4);
-			}
-		}
-	}
-	bool aslIsClient = p.get("asl_role") != 0;
-	const bool abrupt = p.get("abrupt") != 0;
-	if (abrupt)
-	{
-		// A framer that closes right behind its last frame must not have asked for anything: the pong that answers a
-		// ping would be sent into a closed connection, and TCP then resets it and discards what the asl side has not
-		// read yet (the kernel's doing, and the stub's; not a loss the library could prevent)
-		for (auto& f : frags)
-			f.ping = 0;
-	}
-	std::vector<std::string> framerGot;
-	bool framerSawEnd = false;
-	std::string framingProblem, handshakeProblem;
-	AslSide aslSide;
-	int fragmentedWithPing = 0;
-	for (size_t i = 0; i < msgs.size(); i++)
-		if (msgs[i].dir == (aslIsClient ? 1 : 0) && frags[i].ping == 2 && frags[i].nframes > 1 && msgs[i].data.size() > 1)
-			fragmentedWithPing++;
-
-	if (!aslIsClient)
-	{
-		// ---- asl server, framer client
-		FramerSrv* srv = new FramerSrv;
-		srv->msgs = &msgs;
-		if (!srv->bind(PORT))
-		{
-			sim::fail("harness", "bind_failed", "bind failed");
-			delete srv;
-			return;
-		}
-		srv->start(true);
-		int fd = sim::net::rawConnectTcp(PORT);
-		std::string key = ref::base64(msgOf(p.ops.size() * 77 + 5, 16, false));
-		// browsers list several tokens in Connection (Firefox: "keep-alive, Upgrade")
-		static const char* CONN[] = {"Upgrade", "keep-alive, Upgrade", "Upgrade, keep-alive"};
-		std::string req = std::string("GET /chat HTTP/1.1\r\nHost: 127.0.0.1\r\nUpgrade: websocket\r\nConnection: ") + CONN[std::abs(p.get("conn_hdr")) % 3] + "\r\nSec-WebSocket-Key: " + key + "\r\nSec-WebSocket-Version: 13\r\n\r\n";
-		sim::net::rawSend(fd, req.data(), req.size());
-		std::string head;
-		if (!readHttpHead(fd, head) || head.compare(0, 12, "HTTP/1.1 101") != 0)
-			handshakeProblem = "no 101 response: " + head.substr(0, 40);
-		else if (headerValue(head, "Sec-WebSocket-Accept") != ref::wsAccept(key))
-			handshakeProblem = "Sec-WebSocket-Accept is '" + headerValue(head, "Sec-WebSocket-Accept") + "', RFC 6455 prescribes '" + ref::wsAccept(key) + "'";
-		if (handshakeProblem.empty())
-		{
-			std::string stream;
-			for (size_t i = 0; i < msgs.size(); i++)
-				if (msgs[i].dir == 0)
-					stream += framesFor(msgs[i], frags[i], true);
-			M endm{0, 1, "\x01" "END"};
-			FragSpec ef;
-			ef.seed = 3;
-			stream += framesFor(endm, ef, true);
-			sim::net::rawSend(fd, stream.data(), stream.size());
-			if (!abrupt)
-				deframe(fd, false, framerGot, framerSawEnd, framingProblem);
-		}
-		sim::net::rawClose(fd);
-		srv->stop(true);
-		aslSide = srv->side;
-		delete srv;
-	}
-	else
-	{
-		// ---- asl client, framer server
-		asl::Socket lst;
-		if (!lst.bind("127.0.0.1", PORT))
-		{
-			sim::fail("harness", "bind_failed", "bind failed");
-			return;
-		}
-		lst.listen(5);
-		bool connected = false;
-		Task client;
-		client.start([&]() {
-			asl::WebSocket ws;
-			connected = ws.connect("ws://127.0.0.1/chat", PORT);
-			if (!connected)
-				return;
-			aslSide.sendAll(ws, msgs, 0);
-			aslSide.pump(ws, 60);
-			ws.close();
-		});
-		asl::Socket conn = lst.accept();
-		int fd = conn.handle();
-		std::string head;
-		if (!readHttpHead(fd, head))
-			handshakeProblem = "no upgrade request from WebSocket::connect";
-		else
-		{
-			std::string key = headerValue(head, "Sec-WebSocket-Key");
-			std::string resp = "HTTP/1.1 101 Switching Protocols\r\nUpgrade: websocket\r\nConnection: Upgrade\r\nSec-WebSocket-Accept: " + ref::wsAccept(key) + "\r\n\r\n";
-			sim::net::rawSend(fd, resp.data(), resp.size());
-			deframe(fd, true, framerGot, framerSawEnd, framingProblem);
-			if (framerSawEnd)
-			{
-				std::string stream;
-				for (size_t i = 0; i < msgs.size(); i++)
-					if (msgs[i].dir == 1)
-						stream += framesFor(msgs[i], frags[i], false);
-				M endm{1, 1, "\x01" "END"};
-				FragSpec ef;
-				ef.seed = 4;
-				stream += framesFor(endm, ef, false);
-				sim::net::rawSend(fd, stream.data(), stream.size());
-				// wait for the client's close (or, abrupt, close right behind the last frame)
-				char tmp[256];
-				while (!abrupt && sim::net::rawRecv(fd, tmp, sizeof tmp, 60.0) > 0)
-				{
-				}
-			}
-		}
-		conn.close();
-		client.join();
-		lst.close();
-		if (!connected && handshakeProblem.empty())
-			handshakeProblem = "WebSocket::connect refused a correct RFC 6455 handshake response";
-	}
-	sim::sleepFor(3.0);
-	sim::NoSched ns;
-	const char* who = aslIsClient ? "asl_client" : "asl_server";
-	if (!handshakeProblem.empty())
-	{
-		sim::fail("handshake", who, "%s: %s", who, handshakeProblem.c_str());
-		return;
-	}
-	if (!framingProblem.empty())
-		sim::fail("framing", (std::string(who) + ";" + framingProblem).c_str(), "frames emitted by the %s: %s", who, framingProblem.c_str());
-	if (aslSide.negative)
-		sim::fail("negative_length", who, "receive() returned a message of negative length");
-	// asl -> framer direction (an asl server answers only after the framer's end marker: nobody listens any more when the framer has gone)
-	const bool framerListened = !(abrupt && !aslIsClient);
-	if (framerListened)
-		compareSeq(aslIsClient ? "asl_client_to_framer" : "asl_server_to_framer", msgs, aslIsClient ? 0 : 1, framerGot);
-	if (framerListened && !framerSawEnd && framingProblem.empty())
-		sim::fail("message_mismatch", aslIsClient ? "asl_client_to_framer;lost_end" : "asl_server_to_framer;lost_end", "the framer never saw the end marker from the %s", who);
-	// framer -> asl direction
-	{
-		std::string dn = aslIsClient ? "framer_to_asl_client" : "framer_to_asl_server";
-		if (fragmentedWithPing)
-			dn += ";ping_between_fragments";
-		if (abrupt)
-			dn += ";close_behind_last_frame";
-		compareSeq(dn.c_str(), msgs, aslIsClient ? 1 : 0, aslSide.got);
-		if (!aslSide.sawEnd)
-			sim::fail("message_mismatch", (dn + ";lost_end").c_str(), "the %s never received the end marker sent by the framer", who);
-	}
-	sim::setNontrivial();
-}
-
-// ================================================================ hostile frame streams
-// ops: raw(bytes)  cut(permille)   one connection, asl in either role
-void genHostileWs(Prng& r, Plan& p, int)
-{
-	p.p["asl_role"] = r.below(2);
-	p.p["bad_handshake"] = r.below(4) == 0 ? 1 + r.below(6) : 0;
-	std::string s;
-	int n = 1 + (int)r.below(4);
-	for (int i = 0; i < n; i++)
-	{
-		ref::Frame f;
-		f.fin = r.below(4) != 0;
-		f.rsv = r.below(4) == 0 ? (int)r.below(8) : 0;
-		f.opcode = r.below(3) == 0 ? (int)r.below(16) : (int)r.below(3);
-		f.masked = r.below(2);
-		f.key = keyOf((int)r.below(6), r.next());
-		f.payload = msgOf(r.next(), r.below(300), false);
-		std::string enc = ref::encodeFrame(f, (int)r.below(3));
-		switch (r.below(8))
-		{
-		case 0: // absurd 64-bit lengths
-		{
-			// (lengths that are representable, e.g. 0x7fffffff, are legal frames the peer merely never completes; they are
-			// not sent because a 2 GiB buffer makes a run take minutes of wall-clock time without deciding anything)
-			static const uint64_t L[] = {0x80000000ULL, 0xffffffffULL, 0x100000000ULL, 0x8000000000000000ULL, 0xffffffffffffffffULL, 0x00000000fffffff0ULL, 0x0000000180000005ULL, 0x7fffffffffffffffULL, 0x00000001ffffff00ULL};
-			uint64_t v = L[r.below(sizeof L / sizeof L[0])];
-			enc = std::string(1, (char)(0x80 | (f.opcode & 15)));
-			enc += (char)((f.masked ? 0x80 : 0) | 127);
-			for (int k = 7; k >= 0; k--)
-				enc += (char)((v >> (8 * k)) & 255);
-			enc += msgOf(r.next(), r.below(64), false);
-			break;
-		}
-		case 1: enc = enc.substr(0, r.below((uint32_t)enc.size() + 1)); break; // truncated
-		case 2: enc[r.below((uint32_t)enc.size())] ^= (char)(1 << r.below(8)); break;
-		default: break;
-		}
-		s += enc;
-	}
-	p.ops.push_back(op("raw", {}, s));
-	p.ops.push_back(op("cut", {r.below(3) == 0 ? -1 : (int64_t)r.below(1001)}));
-	if (r.below(2))
-		p.p["knob.net.frag"] = 10 + r.below(90);
-}
-
-struct HostSrv : public asl::WebSocketServer
-{
-	volatile int negative = 0, received = 0;
-	void serve(asl::WebSocket& ws)
-	{
-		for (int i = 0; i < 64; i++)
-		{
-			if (!ws.wait(20) || ws.closed())
-				break;
-			asl::WebSocketMsg m = ws.receive();
-			if (m.length() < 0)
-				__sync_fetch_and_add(&negative, 1);
-			__sync_fetch_and_add(&received, 1);
-		}
-	}
-};
-
-void runHostileWs(const Plan& p)
-{
-	std::string stream;
-	int cut = -1;
-	for (auto& o : p.ops)
-	{
-		if (o.k == "raw")
-			stream = o.s;
-		else if (o.k == "cut")
-			cut = (int)o.arg(0, -1);
-	}
-	if (stream.size() > 100000)
-		stream.resize(100000);
-	size_t limit = cut < 0 ? stream.size() : (size_t)((uint64_t)std::min(cut, 1000) * stream.size() / 1000);
-	bool aslIsClient = p.get("asl_role") != 0;
-	int negative = 0;
-	if (!aslIsClient)
-	{
-		HostSrv* srv = new HostSrv;
-		if (!srv->bind(PORT))
-		{
-			delete srv;
-			return;
-		}
-		srv->start(true);
-		int fd = sim::net::rawConnectTcp(PORT);
-		std::string req = "GET / HTTP/1.1\r\nHost: x\r\nUpgrade: websocket\r\nConnection: Upgrade\r\nSec-WebSocket-Key: AAAAAAAAAAAAAAAAAAAAAA==\r\n\r\n";
-		// a hostile opening handshake (the frames that follow are then sent into whatever the server does with it)
-		switch (std::abs(p.get("bad_handshake")) % 8)
-		{
-		case 1: req = "GET\r\n\r\n"; break;                                                                  // request line without spaces
-		case 2: req = "GET / HTTP/1.1\r\nHost x\r\nUpgrade: websocket\r\n\r\n"; break;                        // header line without a colon
-		case 3: req = "GET / HTTP/1.1\r\nHost: x\r\n\r\n"; break;                                             // not an upgrade request
-		case 4: req = req.substr(0, req.size() / 2); break;                                                     // head never completed
-		case 5: req = "GET / HTTP/1.1\r\nUpgrade: websocket\r\nConnection: Upgrade\r\n\r\n"; break;           // no key
-		case 6: req = std::string("GET / HTTP/1.1\r\nUpgrade: websocket\r\nConnection: Upgrade\r\nSec-WebSocket-Key: ") + std::string(20000, 'A') + "\r\n\r\n"; break;
-		default: break;
-		}
-		sim::net::rawSend(fd, req.data(), req.size());
-		std::string head;
-		readHttpHead(fd, head);
-		sim::net::rawSend(fd, stream.data(), limit);
-		sim::faultFired("peer_close");
-		if (cut < 0)
-			sim::sleepFor(1.0);
-		sim::net::rawClose(fd);
-		sim::sleepFor(120.0); // every timeout of the library fits in here
-		srv->stop(true);
-		negative = srv->negative;
-		delete srv;
-	}
-	else
-	{
-		asl::Socket lst;
-		if (!lst.bind("127.0.0.1", PORT))
-			return;
-		lst.listen(5);
-		Task client;
-		int* neg = &negative;
-		client.start([neg]() {
-			asl::WebSocket ws;
-			if (!ws.connect("ws://127.0.0.1/", PORT))
-				return;
-			for (int i = 0; i < 64; i++)
-			{
-				if (!ws.wait(20) || ws.closed())
-					break;
-				asl::WebSocketMsg m = ws.receive();
-				if (m.length() < 0)
-					(*neg)++;
-			}
-			ws.close();
-		});
-		asl::Socket conn = lst.accept();
-		int fd = conn.handle();
-		std::string head;
-		if (readHttpHead(fd, head))
-		{
-			std::string resp = "HTTP/1.1 101 Switching Protocols\r\nUpgrade: websocket\r\nConnection: Upgrade\r\nSec-WebSocket-Accept: " + ref::wsAccept(headerValue(head, "Sec-WebSocket-Key")) + "\r\n\r\n";
-			// a hostile answer to the client's opening handshake
-			switch (std::abs(p.get("bad_handshake")) % 8)
-			{
-			case 1: resp = "HTTP/1.1 400 Bad Request\r\nContent-Length: 0\r\n\r\n"; break;
-			case 2: resp = "HTTP/1.1 101 Switching Protocols\r\nConnection: Upgrade\r\n\r\n"; break;        // no Upgrade header
-			case 3: resp = resp.substr(0, resp.size() / 2); break;                                          // cut inside the head
-			case 4: resp = "HTTP/1.1 101 Switching Protocols\r\nUpgrade websocket\r\n\r\n"; break;          // header line without a colon
-			case 5: resp = "\r\n"; break;
-			case 6: resp = "HTTP/1.1\r\n\r\n"; break;                                                      // status line without a code
-			default: break;
-			}
-			sim::net::rawSend(fd, resp.data(), resp.size());
-			sim::net::rawSend(fd, stream.data(), limit);
-			sim::faultFired("peer_close");
-			if (cut < 0)
-				sim::sleepFor(1.0);
-		}
-		conn.close();
-		client.join();
-		lst.close();
-	}
-	sim::NoSched ns;
-	if (negative)
-		sim::fail("negative_length", aslIsClient ? "hostile;asl_client" : "hostile;asl_server", "receive() returned a message of negative length %d times", negative);
-	if (limit > 0 && limit < stream.size())
-		sim::setNontrivial();
-}
-
-// ================================================================ several connections on one server
-// ops: cli(group, nmsgs, leaves)   group 0 connects in phase 1, group 1 in phase 3; "leaves" = closes in phase 2 (group 0 only)
-// The server echoes every message and, at two quiescent moments, broadcasts to clients() under mutex() the way the
-// class documentation describes. Every client must get its own echoes once and in order and every broadcast issued
-// while it was connected exactly once; clients() must list exactly the connections that are inside serve().
-struct MultiSrv : public asl::WebSocketServer
-{
-	asl::Mutex liveMutex;
-	std::vector<asl::WebSocket*> live;
-	volatile int entered = 0, exited = 0;
-	void serve(asl::WebSocket& ws)
-	{
-		{
-			asl::Lock l(liveMutex);
-			live.push_back(&ws);
-		}
-		__sync_fetch_and_add(&entered, 1);
-		for (;;)
-		{
-			if (!ws.wait(60) || ws.closed())
-				break;
-			asl::WebSocketMsg m = ws.receive();
-			if (m.length() <= 0)
-				continue;
-			asl::String t = m;
-			ws.send(asl::String("E:") + t);
-		}
-		{
-			asl::Lock l(liveMutex);
-			for (size_t i = 0; i < live.size(); i++)
-				if (live[i] == &ws)
-				{
-					live.erase(live.begin() + (long)i);
-					break;
-				}
-		}
-		__sync_fetch_and_add(&exited, 1);
-	}
-};
-
-struct MultiCli
-{
-	int group = 0, nmsgs = 0, leaves = 0, idx = 0;
-	volatile int connected = 0, closeNow = 0, done = 0;
-	std::vector<std::string> got;
-	Task task;
-};
-
-void genMulti(Prng& r, Plan& p, int)
-{
-	int n = 2 + (int)r.below(5);
-	for (int i = 0; i < n; i++)
-		p.ops.push_back(op("cli", {(int64_t)(i < 2 ? 0 : r.below(2)), (int64_t)r.below(4), (int64_t)r.below(2)}));
-	if (r.below(2))
-		p.p["knob.net.lat_us"] = 1 + r.below(20000);
-	if (r.below(2))
-		p.p["knob.net.frag"] = 10 + r.below(80);
-}
-
-void checkMembership(MultiSrv& srv, const char* when)
-{
-	std::vector<uintptr_t> listed, live;
-	{
-		asl::Lock l(srv.mutex());
-		for (int i = 0; i < srv.clients().length(); i++)
-			listed.push_back((uintptr_t)srv.clients()[i]);
-	}
-	{
-		asl::Lock l(srv.liveMutex);
-		for (auto* w : srv.live)
-			live.push_back((uintptr_t)w);
-	}
-	std::sort(listed.begin(), listed.end());
-	std::sort(live.begin(), live.end());
-	if (listed != live)
-		sim::fail("client_list", when, "%s: clients() lists %zu connections, %zu are inside serve()%s", when, listed.size(), live.size(),
-		          listed.size() == live.size() ? " (different objects)" : "");
-}
-
-void broadcast(MultiSrv& srv, const char* tag)
-{
-	asl::Lock l(srv.mutex());
-	for (int i = 0; i < srv.clients().length(); i++)
-		srv.clients()[i]->send(asl::String(tag));
-}
-
-void runMulti(const Plan& p)
-{
-	std::vector<MultiCli> cl;
-	for (auto& o : p.ops)
-		if (o.k == "cli" && cl.size() < 8)
-		{
-			MultiCli c;
-			c.group = (int)(std::abs(o.arg(0)) & 1);
-			c.nmsgs = (int)(std::abs(o.arg(1)) % 4);
-			c.leaves = (int)(std::abs(o.arg(2)) & 1);
-			c.idx = (int)cl.size();
-			cl.push_back(c);
-		}
-	MultiSrv* srv = new MultiSrv;
-	if (!srv->bind(PORT))
-	{
-		sim::fail("harness", "bind_failed", "bind failed");
-		delete srv;
-		return;
-	}
-	srv->start(true);
-	auto body = [&](MultiCli* c) {
-		asl::WebSocket ws;
-		if (!ws.connect("ws://127.0.0.1/chat", PORT))
-		{
-			c->done = 1;
-			return;
-		}
-		c->connected = 1;
-		for (int j = 0; j < c->nmsgs; j++)
-			ws.send(asl::String(0, "c%im%i", c->idx, j));
-		while (!c->closeNow)
-		{
-			if (!ws.wait(0.25))
-				continue;
-			if (ws.closed())
-				break;
-			asl::WebSocketMsg m = ws.receive();
-			if (m.length() > 0)
-				c->got.push_back(std::string((const char*)((asl::ByteArray)m).data(), (size_t)m.length()));
-		}
-		ws.close();
-		c->done = 1;
-	};
-	auto startGroup = [&](int g) {
-		for (auto& c : cl)
-			if (c.group == g)
-				c.task.start([&body, &c]() { body(&c); });
-	};
-	auto settle = [&]() { sim::sleepFor(4.0); };
-	std::vector<std::vector<std::string>> expectB(cl.size());
-	// phase 1: group 0 connects and talks
-	startGroup(0);
-	settle();
-	checkMembership(*srv, "after the first group connected");
-	broadcast(*srv, "B1");
-	for (auto& c : cl)
-		if (c.group == 0 && c.connected)
-			expectB[(size_t)c.idx].push_back("B1");
-	settle();
-	// phase 2: some of them leave (in index order, i.e. older connections first or not, as the plan says)
-	int left = 0;
-	for (auto& c : cl)
-		if (c.group == 0 && c.leaves)
-		{
-			c.closeNow = 1;
-			c.task.join();
-			left++;
-		}
-	settle();
-	checkMembership(*srv, "after some connections left");
-	// phase 3: group 1 connects
-	startGroup(1);
-	settle();
-	checkMembership(*srv, "after the second group connected");
-	broadcast(*srv, "B2");
-	for (auto& c : cl)
-		if (c.connected && !c.closeNow)
-			expectB[(size_t)c.idx].push_back("B2");
-	settle();
-	for (auto& c : cl)
-		if (!c.closeNow)
-		{
-			c.closeNow = 1;
-			if (c.task.id >= 0)
-				c.task.join();
-		}
-	settle();
-	checkMembership(*srv, "after all connections left");
-	srv->stop(true);
-	int entered = srv->entered, exited = srv->exited;
-	delete srv;
-	sim::NoSched ns;
-	int connected = 0;
-	for (auto& c : cl)
-		connected += c.connected;
-	if (entered != connected || exited != entered)
-		sim::fail("handshake", "serve_count;multi", "%d clients connected, serve(WebSocket&) entered %d times and returned %d times", connected, entered, exited);
-	for (auto& c : cl)
-	{
-		if (!c.connected)
-		{
-			sim::fail("handshake", "multi;connect", "client %d could not connect to the library's own server", c.idx);
-			continue;
-		}
-		std::vector<std::string> echoes, bcasts;
-		for (auto& g : c.got)
-			(g.compare(0, 2, "E:") == 0 ? echoes : bcasts).push_back(g);
-		std::vector<std::string> wantE;
-		for (int j = 0; j < c.nmsgs; j++)
-			wantE.push_back("E:c" + std::to_string(c.idx) + "m" + std::to_string(j));
-		if (echoes != wantE)
-			sim::fail("message_mismatch", "multi;echo", "client %d of %zu: sent %zu messages, got %zu echoes back (or other content/order)", c.idx, cl.size(), wantE.size(), echoes.size());
-		if (bcasts != expectB[(size_t)c.idx])
-			sim::fail("message_mismatch", "multi;broadcast", "client %d of %zu: %zu broadcasts were sent to the connections listed by clients() while it was connected, it received %zu", c.idx, cl.size(),
-			          expectB[(size_t)c.idx].size(), bcasts.size());
-	}
-	if (left > 0)
-		sim::setNontrivial();
-}
-
-const char* REAL11 = "src/WebSocket.cpp (client and server roles, handshake, send, receive), src/SHA1.cpp, src/util.cpp (Base64, Random), src/Socket.cpp, src/SocketServer.cpp, StreamBuffer.h";
-const char* STUB11 = "network (TCP stub with fragmentation, short sends, latency, small send buffers, peer close), clock, pthread primitives, /dev/urandom (served from the run's PRNG); independent SHA-1, Base64 and RFC 6455 framer/deframer in scen/ref";
-
+#include "scen/c11_ws.inc"
 } // namespace
 
 REGISTER_SCENARIO(c11_asl, "C11", "ws_asl", genAsl, runAsl, 15000, 600000, {4, 16, 64}, 0, 8000000, 30000.0,
